@@ -68,7 +68,7 @@ ARCH_NOTE = (
 )
 
 PLAN["C01"] = {
-    "quick": ["rm_q_", "push_q_", "ext_q_", "shape_q_", "set_q_", "clear_q_"],
+    "quick": ["rm_q_", "push_q_", "ext_q_", "shape_q_", "set_q_", "clear_q_", "canon_q_", "tbl_q_"],
     "thorough": ["rm_t_", "push_t_", "ext_t_", "shape_t_", "set_t_", "clear_t_", "grow_"],
     "bounds": {"quick": "rows<=3 per archetype, slots<=4, batch<=2, registries (A,B),(A,Z,D),(D,B,W,A)", "thorough": "rows<=3, slots<=4, batch<=3, capacity both exact (growth path) and spare"},
     "outside": ["histories only through the one-step inductive argument", "World-level glue beyond the tiny shapes", "worlds larger than the shapes"],
@@ -114,8 +114,8 @@ PLAN["C13"] = {
 
 PLAN["C01"]["quick"] += ["world_q_"]
 PLAN["C01"]["thorough"] += ["world_t_"]
-PLAN["C13"]["quick"] += ["world_q_", "allocc_q_"]
-PLAN["C13"]["thorough"] += ["world_t_", "allocc_t_"]
+PLAN["C13"]["quick"] += ["world_q_", "allocc_q_", "tbl_q_"]
+PLAN["C13"]["thorough"] += ["world_t_", "allocc_t_", "tbl_t_"]
 PLAN["C13"]["stubs"] = ["hashbrown -> /verif/models/hashbrown (E2) for the world_/allocc_ harnesses", "fnv -> constant hasher (hash values are ignored by the hashbrown model)"]
 PLAN["C02"]["quick"] += ["world_q_"]
 PLAN["C02"]["thorough"] += ["allocc_"]
@@ -338,12 +338,11 @@ def run_smt(engine, repo, tier, scratch):
             v["replay"] = path
             v["reproduced"] = False
             harness = v.get("replay_harness")
-            if engine == "tables" and not harness:
-                m = v.get("model", {})
-                vk = {"imm": "imm", "mut": "mut", "oimm": "oimm", "omut": "omut"}.get(m.get("v"))
-                ck = {"cimm": "imm", "cmut": "mut", "coimm": "oimm", "comut": "omut"}.get(m.get("c"))
-                if vk and ck:
-                    harness = "stagepair_q_c_%s_then_%s" % (ck, vk)
+            if engine == "tables" and not harness and v.get("kind") not in ("ambiguous", "merger", "inverse", "fold"):
+                # replay through rustc's real resolution: the whole family of adjacent-task instances
+                # (every kind pair on one component / resource, and two-view lists); a reproduced
+                # counterexample makes at least one of them fail
+                harness = "stagepair_q_"
             if engine == "glue":
                 # replay against the real code: public-API scenarios (one per glue function and path)
                 # with an audit of len / contains / stored rows after every operation, run natively
